@@ -1,4 +1,4 @@
-/- GENERATED on every run by /verif/check from `harness c07 consts` (values as the compiled
+/- GENERATED on every run by /verif/check from `harness ec07 consts` (values as the compiled
    /repo working tree sees them). Do not edit. -/
 namespace Radix.Generated.C07
 
@@ -8,5 +8,11 @@ def EPOCHS_PER_PARTITION : Nat := 100
 def MAX_EPOCH_RANGE_BABYLON : Nat := 8640
 def MAX_EPOCH_RANGE_CUTTLEFISH : Nat := 8640
 def MAX_EPOCH_RANGE_LATEST : Nat := 8640
+def GENESIS_START_EPOCH : Nat := 1
+def GENESIS_START_PARTITION : Nat := 65
+def GENESIS_RANGE_START : Nat := 65
+def GENESIS_RANGE_END : Nat := 255
+def GENESIS_EPOCHS_PER_PARTITION : Nat := 100
+def GENESIS_EPOCH : Nat := 2
 
 end Radix.Generated.C07
